@@ -274,6 +274,33 @@ def run(out: Outcome) -> None:
                                   f"({float(b.statistic)!r}, {float(b.p_value)!r}) on the new reference and the last {w} values", rep)
                     break
         out.case({"refit_without_reset": True, "window": w, "n1": len(ref1), "n2": len(ref2), "h": hash(tuple(stream)) & 0xFFFFFF})
+    # a second fit() ACROSS the size branch (exact distribution up to 10 000 values, asymptotic above): small -> large and large -> small, no reset in between;
+    # whatever the first fit decided or cached must not survive the second
+    for n1, n2 in ((rng.choice([200, 300]), rng.choice([10007, 10450])), (10003, rng.choice([150, 400]))):
+        w = rng.choice([20, 30])
+        ref1, ref2 = [rng.gauss(0, 1) for _ in range(n1)], [rng.gauss(0.1, 1) for _ in range(n2)]
+        stream = [rng.gauss(0.2, 1) for _ in range(2 * w + 6)]
+        cut = rng.randint(1, w + 3)
+        rep = {"first_ref_size": n1, "ref_size": n2, "window": w, "kind": "refit across the 10 000 branch", "refit_after": cut, "stream": stream}
+        try:
+            inc = IncrementalKSTest(window_size=w)
+            inc.fit(X=np.array(ref1))
+            for v in stream[:cut]:
+                inc.update(value=v)
+            inc.fit(X=np.array(ref2))
+            bat = KSTest()
+            bat.fit(X=np.array(ref2))
+            for t in range(cut + 1, len(stream) + 1):
+                r, _ = inc.update(value=stream[t - 1])
+                if t >= w and r is not None:
+                    b, _ = bat.compare(X=np.array(stream[t - w: t]))
+                    if abs(float(r.statistic) - float(b.statistic)) > 1e-12 or abs(float(r.p_value) - float(b.p_value)) > 1e-9 + 1e-3 * (float(b.p_value) > 0.999):
+                        out.violation(f"IncrementalKSTest fitted on {n1} values and then on {n2}: (statistic, p)=({float(r.statistic)!r}, {float(r.p_value)!r}) differs from the "
+                                      f"batch test ({float(b.statistic)!r}, {float(b.p_value)!r}) on the new reference and the last {w} values", rep)
+                        break
+        except Exception as e:  # noqa: BLE001
+            out.violation(f"IncrementalKSTest fitted on {n1} values and then on {n2}: {type(e).__name__}: {e}", rep)
+        out.case({"refit_across_size_branch": (n1, n2), "window": w})
     # references above 10 000 values: asymptotic branch, batch vs incremental
     # window_size == len(reference) in the hundreds / thousands (scipy's equal-sizes branch of the exact distribution), and n * m beyond 10^6
     for n, w in (((600, 600), (1100, 1100), (1500, 800)) if thorough else ((rng.choice([560, 700]), None), (1500, 800))):
